@@ -443,6 +443,12 @@ func (c *wsConn) call(rid, action string, params interface{}, cb func(result jso
 			cb(nil, "", err)
 			return
 		}
+		// The access answer may be handled after the connection was disposed of.
+		// Make no request on behalf of a connection that is gone.
+		if c.disposing {
+			cb(nil, "", reserr.ErrDisposing)
+			return
+		}
 		c.serv.cache.Call(c, sub.ResourceName(), sub.ResourceQuery(), action, c.token, params, false, func(result json.RawMessage, refRID string, _ *codec.Meta, err error) {
 			c.Enqueue(func() {
 				cb(result, refRID, err)
